@@ -18,3 +18,22 @@ VARIANTS = [
     ("C01-dst-nonzero", "C01", TZ, "        return _datetime.timedelta()\n", "        return self._utcoffset\n", "TZINFO.dst"),
     ("C01-utcoffset-minutes", "C01", TZ, "self._utcoffset = _datetime.timedelta(seconds=offset)", "self._utcoffset = _datetime.timedelta(minutes=offset)", "TZINFO.utcoffset"),
 ]
+
+VARIANTS += [
+    ("C02-clean", "C02", None, "", "", None),
+    ("C02-gt-ge", "C02", TZ, "if offset_after > offset_before:", "if offset_after >= offset_before:", "ABSCASE.case"),
+    ("C02-swap-arms", "C02", TZ, "                        (offset_after - offset_before)\n                        if dt.fold\n                        else (offset_before - offset_after)", "                        (offset_before - offset_after)\n                        if dt.fold\n                        else (offset_after - offset_before)", "ABSCASE.case"),
+    ("C02-fold-default-0", "C02", DT, "        fold: int = 1,\n        raise_on_unknown_times: bool = False,\n    ) -> Self:", "        fold: int = 0,\n        raise_on_unknown_times: bool = False,\n    ) -> Self:", "DEFAULTS.fold"),
+    ("C02-set-no-fold", "C02", DT, "year, month, day, hour, minute, second, microsecond, tz=tz, fold=self.fold\n", "year, month, day, hour, minute, second, microsecond, tz=tz\n", "FUNNEL.fold"),
+    ("C02-datetime-drop-raise", "C02", INIT, "        fold=fold,\n        raise_on_unknown_times=raise_on_unknown_times,\n", "        fold=fold,\n", "FUNNEL.forward"),
+    ("C02-same-fold-query", "C02", TZ, "(self.utcoffset(dt) if dt.fold else self.utcoffset(dt.replace(fold=1))),", "(self.utcoffset(dt) if dt.fold else self.utcoffset(dt.replace(fold=0))),", "ABSCASE.queries"),
+    ("C02-ambiguous-elif-drop-raise-flag", "C02", TZ, "elif offset_before > offset_after and raise_on_unknown_times:", "elif offset_before > offset_after:", "ABSCASE.case"),
+    ("C02-raise-wrong-exc", "C02", TZ, "                    raise NonExistingTime(dt)", "                    raise AmbiguousTime(dt)", "ABSCASE.case"),
+    ("C02-tzdatetime-fold0", "C02", TZ, "year, month, day, hour, minute, second, microsecond, fold=1\n            )\n        )\n\n    def __repr__", "year, month, day, hour, minute, second, microsecond, fold=0\n            )\n        )\n\n    def __repr__", "FUNNEL.fold-default"),
+    ("C02-create-no-raise-forward", "C02", DT, "dt = tz.convert(dt, raise_on_unknown_times=raise_on_unknown_times)", "dt = tz.convert(dt)", "FUNNEL.create"),
+    ("C02-create-dropfold", "C02", DT, "            year, month, day, hour, minute, second, microsecond, fold=fold\n", "            year, month, day, hour, minute, second, microsecond\n", "FUNNEL.create"),
+    ("C02-replace-fold-self", "C02", DT, "        if fold is None:\n            fold = self.fold\n", "        if fold is None:\n            fold = 1\n", "FUNNEL.fold"),
+    ("C02-at-swap", "C02", DT, "hour=hour, minute=minute, second=second, microsecond=microsecond\n        )\n\n    def in_timezone", "hour=hour, minute=second, second=minute, microsecond=microsecond\n        )\n\n    def in_timezone", "FUNNEL.forward"),
+    ("C02-fixed-convert-swap", "C02", TZ, "                dt.minute,\n                dt.second,\n", "                dt.second,\n                dt.minute,\n", "RECON.slot"),
+    ("C02-refactor-equivalent", "C02", TZ, "if offset_after > offset_before:", "if offset_before < offset_after:", None),
+]
